@@ -144,7 +144,7 @@ def build_symbolic(rec, cls):
                      instance(cfg, with_k='n'),
                      lambda env: float(native_em.compute_pointwise_ll(theta_of(env), env['M'], env['O'])[env[k]]))
         rec.identity('%s/pointwise.total[path%d]' % (cls, i), f_pw + f_ll, 'P∞', SUM(lambda j: v.el(j), n), sym.w(ll_paths[0][1]), req + c,
-                     instance(cfg), lambda env: float(native_em.compute_log_likelihood(theta_of(env), env['M'], env['O'])))
+                     instance(cfg), lambda env: float(np.sum(native_em.compute_pointwise_ll(theta_of(env), env['M'], env['O']))))
 
     # ---------------- sensitivities
     se_paths = good_paths(lambda: em.compute_sensitivities(pars, model, sens, obs), 'sens', f_se)
